@@ -68,7 +68,34 @@ let rec show_skel = function
 
 let ints l = "[" ^ String.concat "," (List.map (fun z -> string_of_int (int_of_z z)) l) ^ "]"
 
+(* SWAP line:  SWAP N1 N2 K v.. (N1+N2 rows) | <old prog> | <new prog>
+   answer: {"swap":"ok"|"panic"|"nocompile","old_skel":..,"new_skel":..,"vm":[samples after the swap]} *)
+let run_swap (line : string) : string =
+  let parts = String.split_on_char '|' line in
+  match parts with
+  | [head; b1; b2] ->
+      let hs = List.filter (fun s -> s <> "") (String.split_on_char ' ' (String.trim head)) in
+      let hs = List.map int_of_string (List.tl hs) in
+      let n1, n2, k, vals = match hs with a :: b :: c :: v -> a, b, c, v | _ -> failwith "head" in
+      let row t = List.init k (fun c -> z_of_int (List.nth vals (t * k + c))) in
+      let rows1 = List.init n1 row in
+      let rows2 = List.init n2 (fun t -> row (n1 + t)) in
+      let p1 = prog_of (parse_sx b1) and p2 = prog_of (parse_sx b2) in
+      (match compile p1, compile p2 with
+       | Some cp1, Some cp2 ->
+           let sk1 = show_skel (published_skeleton cp1) and sk2 = show_skel (published_skeleton cp2) in
+           (match swap_run VmD p1 cp1 p2 cp2 rows1 rows2 with
+            | None -> Printf.sprintf "{\"swap\":\"panic\",\"old_skel\":\"%s\",\"new_skel\":\"%s\"}" sk1 sk2
+            | Some rs ->
+                let body = String.concat "," (List.map (function
+                  | None -> "null"
+                  | Some (((o, w), pos), _) -> Printf.sprintf "{\"out\":%s,\"words\":%s,\"pos\":%d}" (ints o) (ints w) (int_of_n pos)) rs) in
+                Printf.sprintf "{\"swap\":\"ok\",\"old_skel\":\"%s\",\"new_skel\":\"%s\",\"vm\":[%s]}" sk1 sk2 body)
+       | _ -> "{\"swap\":\"nocompile\"}")
+  | _ -> failwith "swap line"
+
 let run_case (line : string) : string =
+  if String.length line > 4 && String.sub line 0 4 = "SWAP" then run_swap line else
   let bar = String.index line '|' in
   let head = String.trim (String.sub line 0 bar) in
   let body = String.sub line (bar + 1) (String.length line - bar - 1) in
